@@ -242,8 +242,8 @@ def case_strategy(tier):
                 s = 'ZZ'
             return s
 
-        eols = ['', '\n', '\r\n', '\n\n', '\r']
-        eol_mode = draw(st.sampled_from(['none', 'lf', 'crlf', 'mixed']))
+        eols = ['', '\n', '\r\n', '\n\n', '\r', '\n\n\n\n\n\n', '\r\n\r\n\r\n', '\n\r\n\n']
+        eol_mode = draw(st.sampled_from(['none', 'lf', 'crlf', 'mixed', 'mixed']))
         if eol_mode == 'mixed':
             classes.add('mixed-line-breaks')
 
@@ -260,7 +260,23 @@ def case_strategy(tier):
         nseg = draw(st.integers(0, 40 if tier == 'thorough' else 25))
         align_at = draw(st.integers(0, max(0, nseg - 1))) if nseg and draw(st.integers(0, 2)) > 0 else None
         long_at = draw(st.integers(0, max(0, nseg - 1))) if nseg and draw(st.integers(0, 5)) == 0 else None
+        isa2_at = draw(st.integers(0, max(0, nseg - 1))) if nseg and draw(st.integers(0, 4)) == 0 else None
         for i in range(nseg):
+            if isa2_at == i:
+                # a second interchange in the same file whose ISA declares another component (and repetition) separator: the
+                # separators of a file are those of its leading header
+                other = [c for c in PUNCT if c not in (term, ele, sub, rep)]
+                sub2 = draw(st.sampled_from(other))
+                rep2 = draw(st.sampled_from([c for c in other if c != sub2]))
+                parts.append('IEA' + ele + '0' + ele + '000000001' + term)
+                parts.append(eol())
+                parts.append(x12ref.make_isa(ele=ele, sub=sub2, term=term, icvn=icvn, rep=rep2, ctl='000000002'))
+                parts.append(eol())
+                classes.add('second-interchange-other-separators')
+                if sub2 not in forbidden:
+                    alphabet_x = [sub2, sub2, 'A', '1']
+                    parts.append('REF' + ele + ''.join(draw(st.sampled_from(alphabet_x)) for _ in range(5)) + sub + 'Q' + term)
+                    parts.append(eol())
             if draw(st.integers(0, 14)) == 0:
                 parts.append(term)          # empty segment
                 parts.append(eol())
@@ -288,8 +304,27 @@ def case_strategy(tier):
             if align_at == i:
                 # pad so that a chosen character of this segment lands on a buffer boundary
                 cur = sum(len(p) for p in parts)
-                what = draw(st.sampled_from(['term', 'first-sep', 'mid', 'after-term', 'lead']))
+                what = draw(st.sampled_from(['term', 'first-sep', 'mid', 'after-term', 'lead', 'empty-after-run']))
                 seg_txt = lead + body + term
+                if what == 'empty-after-run' and term not in '\r\n':
+                    # a run of line breaks that ends on the boundary, then an empty segment, then this (possibly short) segment
+                    run = draw(st.sampled_from(['\n' * 6, '\r\n' * 3, '\n' * 9, '\r\n\n\n\r\n']))
+                    delta = draw(st.sampled_from([-1, 0, 0, 1]))
+                    k = draw(st.integers(1, 2))
+                    target = x12ref.ISA_LEN + BUF * k + delta
+                    need = target - cur - len('PAD' + ele) - len(term) - len(run)
+                    while need < 1:
+                        need += BUF
+                    parts.append('PAD' + ele + 'p' * need + term)
+                    parts.append(run)
+                    parts.append(term)
+                    if draw(st.booleans()):
+                        parts.append('LX' + ele + '1' + term)       # a segment shorter than the run of line breaks
+                    classes.add('buffer-boundary:empty-after-run')
+                    classes.add('empty-segment')
+                    parts.append(lead + body + term)
+                    parts.append(eol())
+                    continue
                 if what == 'term':
                     off = len(seg_txt) - 1
                 elif what == 'first-sep':
